@@ -5,7 +5,8 @@ with the child-side facts extracted from become_child and sibling agreement of t
 """
 import facts
 import hirutil as H
-from facts import AnchorLost, hir_walk
+import k2
+from facts import AnchorLost, hir_walk, ap_str
 
 CRATE = "rink_sandbox"
 
@@ -36,6 +37,39 @@ def loops(e):
     return [n for n in hir_walk(e) if n.get("k") == "Loop" and n.get("src") == "Loop"]
 
 
+def through_helper(F, e, method):
+    """`x.method(..)` written directly, or handed to a private helper of the crate whose body calls `.method()` on the parameter it
+    was given (`Self::kill_child(&mut process)`, `Self::spawn_child(config)`): the method calls, each with the local it acts on
+    in the caller ([(name, lid)] - for a helper, the argument that flows into the receiver; None when it acts on no argument)."""
+    out = []
+    for m in H.method_calls(e, method):
+        out.append((H.local_name(m["recv"]), m))
+    for c in hir_walk(e):
+        if c.get("k") != "Call" or c["f"].get("k") != "Path":
+            continue
+        pth = c["f"]["r"].get("path", "")
+        gs = [g for g in F.by_crate[CRATE] if g.path == pth or (pth and g.path.endswith("::" + pth.split("::")[-1]) and "parent::" in g.path)]
+        gs = [g for g in gs if not g.raw.get("public") and "{closure" not in g.path]
+        if len(gs) != 1:
+            continue
+        try:
+            hh = F.hir_of(gs[0])
+        except AnchorLost:
+            continue
+        params = [(x.get("pat") or x).get("name") for x in hh.get("params", [])]
+        body = H.body_of_async(hh) if hasattr(H, "body_of_async") else hh["body"]
+        for m in H.method_calls(hh["body"], method):
+            rn = H.local_name(m["recv"])
+            arg = None
+            if rn and rn[0] in params and params.index(rn[0]) < len(c["args"]):
+                a = c["args"][params.index(rn[0])]
+                while a.get("k") in ("AddrOf", "Unary") and (a.get("e") or a.get("a")):
+                    a = a.get("e") or a.get("a")
+                arg = H.local_name(a) if a.get("k") == "Path" else None
+            out.append((arg, m))
+    return out
+
+
 def parent(chk, F):
     fn = F.find(CRATE, "parent::Sandbox::<S>::run_task")
     h = F.hir_of(fn)
@@ -61,12 +95,12 @@ def parent(chk, F):
     RECVQ = recv_of("recv")            # request channel
     SENDQ = recv_of("send")            # reply channel
     FRAME = recv_of("write_async")     # framing state
-    killers = [m for m in H.method_calls(inner["body"], "kill") if H.local_name(m["recv"])]
-    PROC = H.local_name(killers[0]["recv"])[0] if killers else None
+    killers = [ln for ln, m in through_helper(F, inner["body"], "kill") if ln]
+    PROC = killers[0][0] if killers else None
     FLAG = None
     for kind, node in H.stmts_of(inner["body"]):
         e = node.get("init") if kind == "let" else node
-        if e and e.get("k") == "If" and H.local_name(e["cond"]) and H.method_calls(e["then"], "kill"):
+        if e and e.get("k") == "If" and H.local_name(e["cond"]) and through_helper(F, e["then"], "kill"):
             FLAG = H.local_name(e["cond"])[0]
     if not (RECVQ and SENDQ and FRAME and PROC and FLAG):
         raise AnchorLost("run_task: could not identify the request channel, reply channel, frame, child process and respawn flag (%s)" % [RECVQ, SENDQ, FRAME, PROC, FLAG])
@@ -261,7 +295,7 @@ def parent(chk, F):
     if ib is None:
         raise AnchorLost("no `if break_out` after the send")
     then = ib[2]["then"]
-    kills = [x for x in H.method_calls(then, "kill") if (H.local_name(x["recv"]) or ("",))[0] == PROC]
+    kills = [m for ln, m in through_helper(F, then, "kill") if (ln or ("",))[0] == PROC]
     brk = [n for n in hir_walk(then) if n.get("k") == "Break" and n.get("target") == lid]
     brk_toplevel = any(k in ("expr", "tail") and n.get("k") == "Break" and n.get("target") == lid for k, n in H.stmts_of(then))
     chk.decide(len(kills) == 1 and brk_toplevel, "recovery-arms", FK, "kill-and-respawn", "%s:%d" % (file, ib[1]),
@@ -270,7 +304,7 @@ def parent(chk, F):
     # outer loop: spawn + fresh handles
     ostm = H.stmts_of(outer_loop["body"])
     proc = [s for k, s in ostm if k == "let" and s["pat"].get("name") == PROC]
-    spawn_ok = len(proc) == 1 and bool(H.method_calls(proc[0]["init"], "spawn"))
+    spawn_ok = len(proc) == 1 and bool(through_helper(F, proc[0]["init"], "spawn"))
     chk.decide(spawn_ok, "recovery-arms", FK, "respawn", "%s:%d" % (file, proc[0]["line"] if proc else 0),
                "each iteration of the outer loop spawns a new child process",
                "the outer loop does not spawn a fresh `process` per iteration")
@@ -320,15 +354,47 @@ def child(chk, F):
     chk.decide(len(reads) == 1 and len(writes) == 1, "child-facts", FK, "one-read-one-write", "%s:%d" % (file, loop["line"]),
                "the child reads one request and writes one response per iteration",
                "child loop has %d read_sync and %d write_sync" % (len(reads), len(writes)))
-    # should_exit = result.is_err(); if should_exit { exit(1) } after the write
-    se = [s for k, s in H.stmts_of(loop["body"]) if k == "let" and s["pat"].get("name") == "should_exit"]
-    ok = len(se) == 1 and any(m["name"] == "is_err" and (H.local_name(m["recv"]) or ("",))[0] == "result" for m in H.method_calls(se[0]["init"]))
-    ifs = [n for k, n in H.stmts_of(loop["body"]) if k in ("expr", "tail") and n.get("k") == "If" and (H.local_name(n["cond"]) or ("",))[0] == "should_exit"]
-    ok2 = len(ifs) == 1 and bool(H.path_calls(ifs[0]["then"], "process::exit"))
-    wline = writes[0]["line"] if writes else 0
-    chk.decide(ok and ok2 and ifs[0]["line"] > wline, "child-facts", FK, "exit-after-err-reply", "%s:%d" % (file, se[0]["line"] if se else 0),
+    # after the reply has been written the child exits exactly when the handler failed (the catch_unwind came back Err): decided on
+    # the MIR, whatever the flag is called and however it is computed (`result.is_err()`, or set in the arms of a match on it)
+    ok, why_not = False, "no process::exit in the request loop"
+    wbs = [bb for bb, t in fn.calls() if "callee" in t and t["callee"]["path"].endswith("Frame::write_sync")]
+    exits = [bb for bb, t in fn.calls() if "callee" in t and t["callee"]["path"].endswith("process::exit") and any(fn.dominates(w, bb) for w in wbs)]
+    for eb in exits:
+        flags = [d for d in (fn.guard_desc(g) for g in fn.guards_of(eb)) if d[0] == "bool" and d[2] is True]
+        for d in flags:
+            ap, flip = k2.peel_not(d[1])
+            if flip:
+                continue
+            txt = ap_str(ap)
+            if ap[0][0] == "call" and ap[0][1].endswith("Result::<T, E>::is_err") and "catch_unwind" in txt:
+                ok = True
+                continue
+            if ap[0][0] == "local" and len(ap[1]) <= 1:
+                good, bad = 0, []
+                for df in fn.defs().get(ap[0][1], []):
+                    c = None
+                    if df[0] == "stmt" and df[3].get("k") == "agg" and ap[1] and str(ap[1][0]).isdigit() and int(ap[1][0]) < len(df[3]["ops"]):
+                        c = facts.const_of(df[3]["ops"][int(ap[1][0])])
+                    elif df[0] == "stmt" and df[3].get("k") == "use" and not ap[1]:
+                        c = facts.const_of(df[3]["a"])
+                    if c is None or c.get("ty") != "bool":
+                        bad.append("a definition that is not a constant")
+                        continue
+                    arm = [x[3] for x in (fn.guard_desc(g) for g in fn.guards_of(df[1])) if x[0] == "variant" and x[3] in ("Ok", "Err") and "catch_unwind" in ap_str(x[1])]
+                    want = "Err" if c.get("int") else "Ok"
+                    if arm == [want]:
+                        good += 1
+                    else:
+                        bad.append("%s set on the %s side" % (bool(c.get("int")), arm or "?"))
+                if good >= 2 and not bad:
+                    ok = True
+                else:
+                    why_not = "the exit flag is %s" % (bad or "not set in both arms of the catch_unwind result")
+            else:
+                why_not = "the exit is behind `%s`" % txt[-80:]
+    chk.decide(ok, "child-facts", FK, "exit-after-err-reply", fn.where(exits[0]) if exits else "%s:%d" % (file, loop["line"]),
                "the child exits after replying with any Err result (so the parent must respawn on every Err reply)",
-               "the child's exit-after-error behaviour is no longer `should_exit = result.is_err(); ... exit(1)` after the reply")
+               "the child no longer exits, after the reply, exactly when the handler failed: %s" % why_not)
     # panics are caught and turned into a reply
     cu = H.path_calls(loop["body"], "panic::catch_unwind")
     chk.decide(len(cu) == 1, "child-facts", FK, "catch-unwind", "%s:%d" % (file, cu[0]["line"] if cu else 0),
